@@ -48,7 +48,11 @@ def tag_txt(t):
 TAGS = [None, None, None, None, (CORE, "int"), (CORE, "str"), (CORE, "float"), (CORE, "bool"), (CORE, "null"),
         ("!", "foo")]
 TEXTS = ["a", "b", "c", "", "1", "01", "0x1", "0o1", "+1", "1.0", "1.00", "1e0", "0.0", "-0.0", "0", "-0", "~", "null",
-         "Null", "true", "True", "false", ".nan", ".NaN", ".inf", "-.inf", "x y", "2", "0x2", "k"]
+         "Null", "true", "True", "false", ".nan", ".NaN", ".inf", "-.inf", "x y", "2", "0x2", "k",
+         # 64-bit boundary band: the value of each is decided by the resolver model (C08), the loader must keep it
+         "0xFFFFFFFFFFFFFFFF", "0x8000000000000000", "0x7FFFFFFFFFFFFFFF", "+9223372036854775808", "9223372036854775807",
+         "-9223372036854775808", "9223372036854775808", "-9223372036854775809", "0o1000000000000000000000",
+         "0o777777777777777777777", "+18446744073709551615", "1e400", "-1e400", "4.9e-324", "0x", "0o8", "1_000"]
 STYLES = "PPPPPSDLF"
 
 
@@ -241,7 +245,10 @@ def check_C07(tier, seed):
     groups = gen.parse_space(tier, rng)
     groups.append(("directed-texts", ["{0.0: a, -0.0: b, 0.0: c}\n", "&a [*a, &b x, *b, {k: *b, k: 1, 0x1: b, 1: c}]\n--- *a\n",
                                       "? [a, {b: c}]\n: d\n? [a, {b: c}]\n: e\n", "{!!int a: 1, b: 2}\n", "&x k: *x\n",
-                                      "- &a a\n- {*a : 1, *a : 2}\n", "a: 1\n---\n---\n- b\n...\n"]))
+                                      "- &a a\n- {*a : 1, *a : 2}\n", "a: 1\n---\n---\n- b\n...\n",
+                                      "- 0xFFFFFFFFFFFFFFFF\n- 0x8000000000000000\n- +9223372036854775808\n- 0o1000000000000000000000\n"
+                                      "- 9223372036854775807\n- -9223372036854775808\n- 9223372036854775808\n- +18446744073709551615\n",
+                                      "{0x7FFFFFFFFFFFFFFF: a, 9223372036854775807: b, 0xFFFFFFFFFFFFFFFF: c, -1: d}\n"]))
     cases, dist = dedupe(groups)
     lines = [enc(s) for s in cases]
     syn_groups = synthetic(tier, rng)
